@@ -114,7 +114,7 @@ def judge(ctx, case, truth, res, model):
                         case, res, "op %d %r: expected %r, got %r" % (i, op, ro[:2], qo[:2])))
                     return
                 continue
-            falsy = not S.is_truthy((truth.get(qc) or ["T"])[0])
+            falsy = any(not S.is_truthy(code) for code in (truth.get(qc) or ["T"]))  # falsy at some evaluation
             if roles.get(rc) != roles.get(qc) or not falsy:
                 ctx.fail("%sverdict-role|%s|%s|ref:%s|real:%s" % (pre, op["op"], sig, roles.get(rc), roles.get(qc)), case,
                          D.describe(case, res, "op %d %r: expected the error of a falsy %s (e.g. #%s), got #%s (%s, %s)" % (
